@@ -1,4 +1,5 @@
 import XvcRepo.Model
+import XvcRepo.Storage
 /-!
   Line-protocol driver for the repository model (`repomodel`).  One tab-separated command per line,
   one canonical abstraction of the resulting state per line.  `lib/repo_harness.py` sends the same
@@ -89,6 +90,11 @@ structure D where
   cfg : Cfg := {}
   st : St := St.init
   tab : Tab := {}
+  -- C06: other repository slots, the storage and the keys ever written to it
+  slots : List (String × St) := []
+  cur : String := "A"
+  storage : Storage := { objs := fun _ => none }
+  skeys : List (Guid × Addr) := []
 
 def exec (d : D) (cmd : Cmd) : D × String :=
   let (s, o) := d.st.step d.cfg cmd
@@ -120,6 +126,44 @@ def stepLine (d : D) (line : String) : D × String :=
     | [a, b] => exec { d with tab := tb } (.move a b { method := parseMethod m, noRecheck := b01 nr, force := false })
     | _ => (d, "bad-op")
   | ["state"] => (d, showState d.tab d.st)
+  | ["use", n] =>
+    -- switch the current repository slot (the state of the current one is parked)
+    let slots := (d.slots.filter (·.1 != d.cur)) ++ [(d.cur, d.st)]
+    let st := match slots.find? (·.1 == n) with | some (_, s) => s | none => St.init
+    ({ d with slots := slots, cur := n, st := st }, "ok")
+  | ["clone", n] =>
+    -- a clone of the current repository (same records, empty cache and workspace) becomes slot `n`
+    let c : St := { d.st with ws := fun _ => none, cache := fun _ => none }
+    ({ d with slots := (d.slots.filter (·.1 != n)) ++ [(n, c)] }, "ok")
+  | ["dropcache"] =>
+    ({ d with st := { d.st with cache := fun _ => none } }, s!"rc=ok {showState d.tab { d.st with cache := fun _ => none }}")
+  | "send" :: g :: rest =>
+    match g.toNat? with
+    | some g =>
+      let pairs := rest.map (fun x => match x.splitOn "=" with | [p, o] => (p, o) | _ => (x, "ok"))
+      let (tb, ps) := d.tab.interns (pairs.map (·.1))
+      let l : List (Addr × Ul) := (ps.zip (pairs.map (·.2))).filterMap (fun (p, o) =>
+        match d.st.targetAddrs [p] with
+        | a :: _ => some (a, if o == "ok" then Ul.ok else Ul.fail)
+        | [] => none)
+      let st' := send g d.st d.storage l
+      let keys := l.foldl (fun ks x => if ks.contains (g, x.1) then ks else ks ++ [(g, x.1)]) d.skeys
+      let listing := keys.filterMap (fun k => (st'.objs k).map (fun b => s!"{k.1}:{showAddr tb k.2}={fp b}"))
+      ({ d with tab := tb, storage := st', skeys := keys }, "st={" ++ ";".intercalate (sortStrs listing) ++ "}")
+    | none => (d, "bad-op")
+  | "bring" :: tmp :: g :: m :: rest =>
+    match g.toNat? with
+    | some g =>
+      let pairs := rest.map (fun x => match x.splitOn "=" with | [p, o] => (p, o) | _ => (x, "ok"))
+      let (tb, ps) := d.tab.interns (pairs.map (·.1))
+      let l : List (Addr × Dl) := (ps.zip (pairs.map (·.2))).filterMap (fun (p, o) =>
+        match d.st.targetAddrs [p] with
+        | a :: _ => some (a, if o == "ok" then Dl.ok else if o == "fc" then Dl.failClean else Dl.failPartial [1, 2, 3])
+        | [] => none)
+      let s1 := fetch (tmp == "same") g d.storage d.st l
+      let (s2, o) := s1.recheck d.cfg (parseMethod m) false ps
+      ({ d with tab := tb, st := s2 }, s!"rc={showOut o} {showState tb s2}")
+    | none => (d, "bad-op")
   | [""] => (d, "")
   | _ => (d, "bad-op")
 
